@@ -40,6 +40,12 @@ PROBES = [
     # comments are white space only outside directive mode: sensitive to a leaked directive stack
     ("parse_sv_str", "module m; /* c */ wire /* d */ x; // e\nendmodule\n"),
     ("parse_lib_str", "library /* c */ l \"*.v\"; // d\n"),
+    # errors with a payload chosen among several candidates: the choice is part of the result
+    ("preprocess_str", "`define PAIR(lhs, rhs, tail) lhs rhs tail\n`PAIR(1)\n"),
+    ("preprocess_str", "`define Q4(a, b, c, d, e, f) a b c d e f\n`Q4()\n"),
+    ("parse_sv_str", "`define T3(x, y, z) x y z\nmodule m; `T3(1)\nendmodule\n"),
+    ("preprocess_str", "`U1 `U2 `U3\n"),
+    ("preprocess_str", "`include \"m1.svh\"\n`include \"m2.svh\"\n"),
 ]
 
 
